@@ -66,7 +66,12 @@ P = {
                                   T: ("CfgsExpiry", dict(MaxCodes=2, MaxAT=4, MaxRT=3, MaxNow=5, Depth=9))},
                 genx={Q: ("CfgsExpiry", 4), T: ("CfgsExpiry", 5)},
                 sim={Q: ("CfgsExpiryC", 500, 14), T: ("CfgsExpiryC", 8000, 22)},
-                simb=dict(MaxCodes=3, MaxAT=10, MaxRT=8, MaxNow=8)),
+                simb=dict(MaxCodes=3, MaxAT=10, MaxRT=8, MaxNow=8),
+                more=[dict(family="C07b", mc={Q: ("CfgsExpiry", dict(MaxCodes=1, MaxAT=3, MaxRT=3, MaxNow=5, MaxDev=1, Depth=9)),
+                                               T: ("CfgsExpiry", dict(MaxCodes=1, MaxAT=4, MaxRT=4, MaxNow=6, MaxDev=1, Depth=11))},
+                           genx={Q: ("CfgsExpiry", 8), T: ("CfgsExpiry", 10)},
+                           sim={Q: ("CfgsExpiryC", 100, 12), T: ("CfgsExpiryC", 2000, 18)},
+                           simb=dict(MaxCodes=1, MaxAT=8, MaxRT=8, MaxNow=7, MaxDev=1))]),
     "C08": dict(family="C08", mc={Q: ("CfgsOne", dict(MaxCodes=1, MaxAT=3, MaxRT=2, MaxNow=1, Depth=6)),
                                   T: ("CfgsStrategies", dict(MaxCodes=2, MaxAT=5, MaxRT=3, MaxNow=2, Depth=7))},
                 genx={Q: ("CfgsStrategies", 3), T: ("CfgsStrategies", 4)},
